@@ -65,6 +65,9 @@ pub struct NetState {
     pub dgram_socks: BTreeMap<u64, String>,
     pub streams: BTreeMap<u64, Stream>,
     pub deliveries: Vec<Delivery>,
+    /// every datagram handed to a send call, once, whatever became of it (delivered, duplicated,
+    /// dropped, or the call failed)
+    pub attempts: Vec<Delivery>,
     pub sleeps: Vec<SleepNote>,
     pub listeners: BTreeMap<u64, (SocketAddr, VecDeque<u64>, Option<(u64, usize)>)>,
     pub polls: BTreeMap<u64, VecDeque<Ready>>,
@@ -239,6 +242,7 @@ impl Backend for SimBackend {
         }
         let mut st = n.st.lock().unwrap();
         let d = Delivery { endpoint: ep, conn: sock, time: dsim::now(), step: dsim::step(), data: buf.to_vec() };
+        st.attempts.push(d.clone());
         match f.map(|x| x.0) {
             Some("dgram_drop") => Ok(buf.len()),
             Some("dgram_dup") => {
